@@ -85,21 +85,21 @@ func parseParams(s string) map[string]string {
 
 // WorkerOut is what one worker process reports.
 type WorkerOut struct {
-	Property    string           `json:"property"`
-	Tier        string           `json:"tier"`
-	Mode        string           `json:"mode"`
-	SeedBase    uint64           `json:"seed_base"`
-	Runs        int              `json:"runs"`
-	Truncated   int              `json:"truncated"`
-	WallS       float64          `json:"wall_s"`
-	SimTimeS    float64          `json:"sim_time_s"`
-	Counters    map[string]int64 `json:"counters"`
-	Distinct    map[string]int   `json:"distinct"`
+	Property    string              `json:"property"`
+	Tier        string              `json:"tier"`
+	Mode        string              `json:"mode"`
+	SeedBase    uint64              `json:"seed_base"`
+	Runs        int                 `json:"runs"`
+	Truncated   int                 `json:"truncated"`
+	WallS       float64             `json:"wall_s"`
+	SimTimeS    float64             `json:"sim_time_s"`
+	Counters    map[string]int64    `json:"counters"`
+	Distinct    map[string]int      `json:"distinct"`
 	DistinctSet map[string][]string `json:"distinct_set,omitempty"`
-	Samples     []map[string]any `json:"samples"`
-	Violations  []ReplayFile     `json:"violations"`
-	Hashes      map[string]string `json:"hashes,omitempty"` // selftest: seed -> event-log hash
-	Error       string           `json:"error,omitempty"`
+	Samples     []map[string]any    `json:"samples"`
+	Violations  []ReplayFile        `json:"violations"`
+	Hashes      map[string]string   `json:"hashes,omitempty"` // selftest: seed -> event-log hash
+	Error       string              `json:"error,omitempty"`
 }
 
 func startWatchdog(limit time.Duration) {
